@@ -12,6 +12,7 @@
 import Shm.Lemmas.KeyWrapLemmas
 import Shm.Lemmas.EncInv
 import Shm.Lemmas.AbsInt
+import Shm.Lemmas.PureThms
 namespace Shm.C13
 open Shm Shm.Crypto
 
@@ -237,3 +238,35 @@ theorem C13_shape (kt len : Nat) (fromEnd : Bool) (secret v : Bytes) (hk : isDes
 example : oddParity 0x00 = 0x01 ∧ oddParity 0x03 = 0x02 ∧ shapeSecret CKK.GENERIC 2 true [1, 2, 3] = some [2, 3] ∧ shapeSecret CKK.AES 2 false [1, 2, 3] = some [1, 2] := by decide
 
 end Shm.C13
+
+/-! ### the byte-level helpers of wrap / unwrap / derive, as the C++ has them (unit-tied definitions of Shm/Pure) -/
+namespace Shm.Pure
+open Shm Shm.Crypto
+
+/-- **DER octet strings** (`DERUTIL::raw2Octet` / `octet2Raw`, used for CKA_EC_POINT and for the ECDH public data): decoding what was encoded
+    gives the bytes back, for every byte string the address space can hold (short and long length forms) -/
+theorem C13_der_roundtrip (b : Bytes) (h : b.length < 2 ^ 64) : octet2Raw (raw2Octet b) = b := der_roundtrip b h
+
+/-- **ECDH public data** (`SoftHSM::getECDHPubData`): whatever the caller passes, the derivation receives an octet string that decodes to the
+    caller's own bytes (raw input) or to the content of the caller's octet string; a raw point of a supported curve is never taken for DER -/
+theorem C13_ecdh_pubdata (d : Bytes) (h : d.length < 2 ^ 64) :
+    octet2Raw (ecdhPubData d) = (if isDerOctet d then octet2Raw d else d) ∧
+    ((d.length = 32 ∨ d.length = 56 ∨ d.length = 65 ∨ d.length = 97 ∨ d.length = 133) → octet2Raw (ecdhPubData d) = d) :=
+  ⟨ecdhPubData_decodes d h, fun hl => (ecdhPubData_raw_point d hl).2⟩
+
+/-- **the padding helpers of C_WrapKey / C_UnwrapKey are the standard ones**: `RFC5652Pad` is PKCS#7 padding, `RFC5652Unpad` inverts it (and agrees with the
+    model's unpadding on every block-aligned input), `RFC3394Pad` is the zero padding to a multiple of eight of CKM_AES_KEY_WRAP -/
+theorem C13_padding_helpers (b : Bytes) (bs : Nat) (h0 : 0 < bs) (h1 : bs < 256) :
+    rfc5652Pad b bs = pkcs7Pad bs b ∧ rfc5652Unpad (rfc5652Pad b bs) bs = some b ∧ rfc3394Pad b = zeroPad8 b ∧
+    (∀ p, p ≠ [] → p.length % bs = 0 → rfc5652Unpad p bs = pkcs7Unpad bs p) :=
+  ⟨rfl, pad5652_roundtrip b bs h0 h1, pad3394_eq_model b, fun p hne hm => unpad5652_eq_model p bs h0 hm hne⟩
+
+/-- **unpadding is exact**: what `RFC5652Unpad` accepts is its result followed by `k` bytes of value `k`, `1 ≤ k ≤ blocksize` — nothing else is accepted -/
+theorem C13_unpad_sound (p v : Bytes) (bs : Nat) (h : rfc5652Unpad p bs = some v) :
+    ∃ k : UInt8, 1 ≤ k.toNat ∧ k.toNat ≤ bs ∧ k.toNat ≤ p.length ∧ p = v ++ List.replicate k.toNat k := unpad5652_sound p v bs h
+
+/-- non-vacuity: a 200-byte string takes the long form `04 81 C8`, an uncompressed P-256 point (65 bytes, first byte 04) is wrapped, not "recognised" -/
+example : (raw2Octet (List.replicate 200 7)).take 3 = [0x04, 0x81, 0xC8] ∧ octet2Raw (raw2Octet (List.replicate 200 7)) = List.replicate 200 7 ∧
+    ecdhPubData (0x04 :: List.replicate 64 1) = 0x04 :: 0x41 :: 0x04 :: List.replicate 64 1 ∧ rfc5652Unpad [1, 2, 2, 2] 4 = some [1, 2] ∧ rfc5652Unpad [1, 2, 3, 2] 4 = none := by decide +kernel
+
+end Shm.Pure
